@@ -48,6 +48,11 @@ pub fn dec_cases(t: bool) -> Vec<Case> {
             c.push(Case::Dec { which: 21, a, b, c: 0 });
         }
     }
+    // which 22: end-of-input grid: an ASCII prefix of a bytes (0..=40), then one of the sequences, then 0..=8 ASCII
+    // bytes: every (length mod 8, position inside the last word) combination of a word-at-a-time scanner
+    for a in 0..=40u8 {
+        c.push(Case::Dec { which: 22, a, b: 0, c: 0 });
+    }
     // which 20: long texts (a: text shape, b: operation, c: position class); see `run_long_text`
     for a in 0..LONG_SHAPES as u8 {
         for b in 0..LONG_OPS.len() as u8 {
@@ -181,6 +186,7 @@ pub fn describe_dec(which: u8, a: u8, b: u8, c: u8, _t: bool) -> serde_json::Val
         1 => serde_json::json!({"decoders": "from_utf8 + from_utf8_lossy_in", "inputs": format!("all strings of length 2..=5 over the 26 class bytes starting with {:#04x} {:#04x}", CLASSES[a as usize], CLASSES[b as usize])}),
         4 => serde_json::json!({"decoders": "from_utf8 + from_utf8_lossy_in", "inputs": format!("all strings of length 6..=7 over the 26 class bytes starting with {:#04x} {:#04x} {:#04x}", CLASSES[a as usize], CLASSES[b as usize], CLASSES[c as usize])}),
         20 => serde_json::json!({"long_text_shape": a, "operation": LONG_OPS[b as usize], "position_class": c}),
+        22 => serde_json::json!({"decoders": "from_utf8 + from_utf8_lossy_in, end-of-input grid", "inputs": format!("{} ASCII bytes, then each of the {} multi-byte / truncated / invalid sequences, then 0..=8 ASCII bytes", a, LONG_SEQS.len())}),
         21 => serde_json::json!({"decoders": "from_utf8 + from_utf8_lossy_in on long inputs", "inputs": format!("ASCII with the bytes {:02x?} placed at each of the 12 offsets before/after the {} byte mark", LONG_SEQS[b as usize], [4096, 8192, 65536][a as usize])}),
         _ => serde_json::json!({"decoders": "from_utf16_in", "inputs": format!("all u16 strings of length <= 6 over 9 unit classes starting with {:#06x}", UNITS[a as usize])}),
     }
@@ -272,6 +278,22 @@ pub fn run_dec(envp: *mut ExecEnv, which: u8, a: u8, b: u8, c: u8, _t: bool, v: 
                 }
                 let _g = Callback::enter();
                 drop(std::mem::ManuallyDrop::into_inner(input));
+            }
+            22 => {
+                let mut input = [0u8; 64];
+                'grid: for seq in LONG_SEQS.iter() {
+                    for tail in 0..=8usize {
+                        let len = a as usize + seq.len() + tail;
+                        for (i, x) in input.iter_mut().enumerate() {
+                            *x = b'a' + (i % 23) as u8;
+                        }
+                        input[a as usize..a as usize + seq.len()].copy_from_slice(seq);
+                        n += 1;
+                        if !go(&mut bump, &input[..len], v, &mut h) {
+                            break 'grid;
+                        }
+                    }
+                }
             }
             0 => {
                 if a == 0 && !go(&mut bump, &[], v, &mut h) {
